@@ -274,10 +274,34 @@ def _all_tags(text):
             and x[:2].isalnum()]
 
 
+# The level of a line of a Gfa is the level of the Gfa whatever the ORDER in which the lines arrived: in these modes the
+# record is the FIRST line of a Gfa which is told neither the version (no version argument, no header) nor anything
+# else before it, so that the record is parsed while the version is still unknown (GFA2-only record types E, F, G, O,
+# U: the version is inferred from this very line; S: from its syntax; L, C, P, custom records: the line waits until a
+# later line tells the version; comments are stored at once); the lines it mentions follow.
+#   first-line         gfapy.Gfa(text of the record + "\n" + the other lines, vlevel=k)
+#   first-line-added   g = gfapy.Gfa(vlevel=k); g.add_line(s) for the record, then for every other line;
+#                      g.process_line_queue()
+FIRST = ("first-line", "first-line-added")
+
+
+def first_line_doc(rec):
+    """the record, then its context lines, then - if no S line is among them - a segment, whose syntax tells the
+    version"""
+    rid, ver, text, ctx, fields, ro = rec
+    lines = [text] + list(ctx)
+    if not any(x.startswith("S\t") for x in lines):
+        lines.append("S\tZz\t*" if ver == "gfa1" else "S\tZz\t4\t*")
+    return lines
+
+
 def mode_fields(rec, mode):
     """The fields of the record which are assigned in the given mode ([]: the mode does not apply to the record)."""
     rid, ver, text, ctx, fields, ro = rec
     names = sorted(fields)
+    if mode in FIRST:
+        # (headers: the header of a Gfa is one merged line, not the line parsed)
+        return [f for f in names if f not in ro] if not rid.startswith("H") else []
     if mode == "standalone":
         return names
     if mode == "connected":
@@ -299,10 +323,10 @@ def mode_fields(rec, mode):
     raise KeyError(mode)
 
 
-def _assign_space():
+def _assign_space(groups):
     sp = []
     # the two original modes first: the index of an exhaustive case is stable
-    for modes in (("standalone", "connected"), DERIVED):
+    for modes in groups:
         for ri, rec in enumerate(ASSIGN):
             for mode in modes:
                 for f in mode_fields(rec, mode):
@@ -313,7 +337,9 @@ def _assign_space():
     return sp
 
 
-ASSIGN_SPACE = _assign_space()
+ASSIGN_SPACE = _assign_space((("standalone", "connected"), DERIVED))
+# the first-line modes: these cases come after the scripts (the indices of the earlier exhaustive cases stay the same)
+FIRST_SPACE = _assign_space((FIRST,))
 
 # ----------------------------------------------------------------------------------------------- tag scripts
 # A script is a sequence of legal public calls on the tags of ONE line (every value assigned is valid): the tag is
@@ -371,10 +397,13 @@ SCRIPT_SPACE = _script_space()
 
 
 def n_exhaustive(tier):
-    return len(ASSIGN_SPACE) + len(SCRIPT_SPACE)
+    return len(ASSIGN_SPACE) + len(SCRIPT_SPACE) + len(FIRST_SPACE)
 
 
 def exhaustive_case(i, tier):
+    if i >= len(ASSIGN_SPACE) + len(SCRIPT_SPACE):
+        ri, f, mode, via = FIRST_SPACE[i - len(ASSIGN_SPACE) - len(SCRIPT_SPACE)]
+        return {"kind": "assign", "record": ASSIGN[ri][0], "ri": ri, "field": f, "mode": mode, "via": via}
     if i >= len(ASSIGN_SPACE):
         ri, mode, read_first, ops = SCRIPT_SPACE[i - len(ASSIGN_SPACE)]
         return {"kind": "script", "record": ASSIGN[ri][0], "ri": ri, "mode": mode, "read_first": read_first,
@@ -420,9 +449,83 @@ def budget(tier):
 MUT_CHARS = "\t:*+-$,;0159AaMZz ="
 
 
+# ----------------------------------------------------------------------------------------------- linelevel
+MARK = "zq"            # the tag which marks the line under test (no generated document uses this name)
+
+
+def _positional_invalid():
+    """{(version, record type): [(field, value spec, kind, label)]}: the clear-cut invalid values of the assignment table
+    for the positional fields which may be assigned while the line is connected"""
+    tab = {}
+    for rid, ver, text, ctx, fields, ro in ASSIGN:
+        rt = text.split("\t")[0]
+        if rt in ("H", "X") or rt.startswith("#"):
+            continue
+        for f in sorted(fields):
+            if f in ro or len(f) == 2:      # tags: two characters
+                continue
+            label, values = fields[f]
+            for kind, spec in values:
+                if kind != V and not isinstance(spec, (tuple, dict)):
+                    tab.setdefault((ver, rt), []).append((f, spec, kind, label))
+    return tab
+
+
+POS_INVALID = _positional_invalid()
+TAG_ENTRIES = [(MARK, "a\tb", WS, "Z"), (MARK, "a\nb", WS, "Z"), (MARK, 12, WT, "Z"), ("zr", "a\tb", WS, "new"),
+               ("zr", "a\nb", WS, "new")]
+TAG_VALID = [(MARK, "other text", V, "Z"), ("zr", "abc", V, "new"), ("zr", 5, V, "new"), (MARK, "*", V, "Z")]
+
+
+def gen_linelevel(rng, tier):
+    """A valid document whose version is NOT told (no version argument; headers without VN half of the time), one of
+    its lines (not a header, not a comment) marked with the tag zq:Z:mark and, most of the time, moved to the front
+    of the document: the line arrives before the lines it mentions and - if nothing before it tells the version -
+    while the version is unknown.  The entries are assignments to the marked line: a valid and an invalid value of
+    the marker tag / a new tag, and up to two invalid values of its positional fields."""
+    ml = rng.choice([3, 5, 8, 12]) if tier == "quick" else rng.choice([8, 12, 20, 40])
+    o = {"no_vn": True} if rng.random() < 0.5 else {}
+    d = D.gen_doc(rng, version="gfa2" if rng.random() < 0.65 else "gfa1", max_lines=ml, same_id_groups=False, odd=0.5, **o)
+    lines = list(d["lines"])
+    cands = [j for j, l in enumerate(lines) if l[:1] not in ("H", "#") and l.strip()
+             and not any(x.startswith(MARK + ":") for x in l.split("\t"))]
+    if not cands:
+        return None
+    # GFA2-only record types half of the time, if there are any (the version is inferred from such a line)
+    special = [j for j in cands if lines[j].split("\t")[0] in ("E", "F", "G", "O", "U")]
+    j = rng.choice(special) if special and rng.random() < 0.5 else rng.choice(cands)
+    target = lines[j] + "\t%s:Z:mark" % MARK
+    del lines[j]
+    r = rng.random()
+    if r < 0.6:
+        at = 0
+    elif r < 0.75:
+        # after the leading comments / headers without VN (they do not tell the version)
+        at = 0
+        while at < len(lines) and (lines[at][:1] == "#" or (lines[at][:1] == "H" and "VN:Z:" not in lines[at])):
+            at += 1
+    else:
+        at = rng.randint(0, len(lines))
+    lines.insert(at, target)
+    rt = target.split("\t")[0]
+    entries = [list(rng.choice(TAG_VALID)), list(rng.choice(TAG_ENTRIES))]
+    pos = POS_INVALID.get((d["version"], rt), [])
+    for e in rng.sample(pos, min(len(pos), 2)):
+        entries.append(list(e))
+    return {"kind": "linelevel", "version": d["version"], "lines": lines, "features": d["features"], "ver_param": None,
+            "target": at, "how": rng.choice(["text", "list", "add"]), "via": rng.choice(["set", "attr"]),
+            "entries": entries}
+
+
 def gen_case(rng, tier, i):
-    if rng.random() < 0.12:
+    r0 = rng.random()
+    if r0 < 0.12:
         return gen_script(rng)
+    if r0 < 0.20:
+        # (the cases of the other kinds, r0 >= 0.20, are what they were)
+        c = gen_linelevel(rng, tier)
+        if c is not None:
+            return c
     ml = rng.choice([3, 5, 8, 12]) if tier == "quick" else rng.choice([8, 12, 20, 40])
     d = D.gen_doc(rng, max_lines=ml, same_id_groups=False, odd=0.5)
     ver = rng.choice([None, d["version"]])
@@ -682,6 +785,18 @@ def make_line(gfapy, rec, mode, level, field=None):
     if mode == "standalone":
         return gfapy.Line(text, vlevel=level, version=ver if not text.startswith("#") else None)
     rt = text.split("\t")[0]
+    if mode in FIRST:
+        lines = first_line_doc(rec)
+        if mode == "first-line":
+            g = gfapy.Gfa("\n".join(lines), vlevel=level)
+        else:
+            g = gfapy.Gfa(vlevel=level)
+            for x in lines:
+                g.add_line(x)
+            g.process_line_queue()
+        ln = g.comments[0] if rt.startswith("#") else _pick(g, rt, text)
+        ln._c18_keepalive = g
+        return ln
     if mode in MERGE:
         ph, others, opts = MERGE[mode]
         if ph:
@@ -819,6 +934,109 @@ def oracle_assign(case):
                         "%s: %s returned %r" % (where, name, q[1]))
             if level == 2:
                 l2 = fresh()
+                if assign(l2)[0] == "ok":
+                    q = step(gfapy, lambda: str(l2))
+                    if q[0] == "ok" and "# INVALID" not in q[1]:
+                        add("invalid-not-reported-by-write-at-level2[%s]" % label, "%s: str -> %r" % (where, q[1]))
+    return list(F.values())
+
+
+# ----------------------------------------------------------------------------------------------- linelevel
+def build_doc(gfapy, lines, how, level):
+    if how == "text":
+        return gfapy.Gfa("\n".join(lines), vlevel=level)
+    if how == "list":
+        return gfapy.Gfa(list(lines), vlevel=level)
+    g = gfapy.Gfa(vlevel=level)
+    for x in lines:
+        g.add_line(x)
+    g.process_line_queue()
+    return g
+
+
+def oracle_linelevel(case):
+    """Every line of a Gfa of level k is a line of level k, whenever it arrived: the marked line of a valid document
+    (version not told; the line is often the first one) is assigned valid and invalid values, with the demands of
+    `assign` (valid: never rejected, readable, writable without marker, valid; invalid: reported by the assignment
+    at level 3, by field_to_s / str at level 2 at the latest, by validate_field / validate at levels 0-2)."""
+    gfapy = lib.import_gfapy()
+    lines, how, via = case["lines"], case["how"], case["via"]
+    tline = lines[case["target"]]
+    rt = tline.split("\t")[0]
+    F = {}
+
+    def add(sig, msg):
+        F.setdefault(sig, "%s: %s" % (sig, msg))
+
+    def fresh(level):
+        g = build_doc(gfapy, lines, how, level)
+        ls = [l for l in g.lines if not l.virtual and l.record_type not in ("H", "#") and MARK in l.tagnames]
+        if len(ls) != 1:
+            raise RuntimeError("marked line not found")
+        ls[0]._c18_keepalive = g
+        return ls[0]
+
+    for level in (0, 1, 2, 3):
+        try:
+            fresh(level)
+        except Exception:  # noqa
+            # whether the document is accepted at every level is judged by `levels` / `mono`
+            return []
+    for f, spec, kind, label in case["entries"]:
+        for level in (0, 1, 2, 3):
+            def assign(line):
+                v = mk(gfapy, spec)
+                if via == "set":
+                    return step(gfapy, lambda: line.set(f, v))
+                return step(gfapy, lambda: setattr(line, f, v))
+
+            where = "line %d of %d (%s, Gfa built by %s, version not told): %s.%s = %r (%s, %s) at level %d; line: %r" % (
+                case["target"] + 1, len(lines), "%s line" % rt, how, rt, f, spec, label, kind, level, tline)
+            line = fresh(level)
+            if f != MARK and f != "zr" and f not in line.positional_fieldnames:
+                continue
+            r = assign(line)
+            if r[0] == "foreign":
+                add("foreign-exception%s[%s]" % ("-on-valid" if kind == V else "", label), "%s: assignment raised %s" % (where, r[1]))
+                continue
+            if kind == V:
+                if r[0] != "ok":
+                    add("valid-rejected[%s]" % label, "%s: assignment raised %s" % (where, r[1]))
+                    continue
+                for name, fn in [("get", lambda: line.get(f)), ("field_to_s", lambda: line.field_to_s(f)), ("str", lambda: str(line)),
+                                 ("validate_field", lambda: line.validate_field(f)), ("str", lambda: str(line))]:
+                    q = step(gfapy, fn)
+                    if q[0] == "foreign":
+                        add("foreign-exception-on-valid[%s]" % label, "%s: %s raised %s" % (where, name, q[1]))
+                        break
+                    if q[0] == "gerr":
+                        add("valid-rejected[%s]" % label, "%s: %s raised %s" % (where, name, q[1]))
+                        break
+                    if name == "str" and "# INVALID" in q[1]:
+                        add("valid-flagged-invalid[%s]" % label, "%s: str -> %r" % (where, q[1]))
+                        break
+                continue
+            if level == 3:
+                if r[0] == "ok":
+                    add("invalid-accepted-by-set-at-level3[%s]" % label, "%s: no error" % where)
+                continue
+            if r[0] == "gerr":
+                continue
+            checks = [("validate_field", lambda l: l.validate_field(f)), ("validate", lambda l: l.validate())]
+            if level == 2:
+                checks += [("field_to_s", lambda l: l.field_to_s(f))]
+            for name, fn in checks:
+                l2 = fresh(level)
+                if assign(l2)[0] != "ok":
+                    continue
+                q = step(gfapy, lambda: fn(l2))
+                if q[0] == "foreign":
+                    add("foreign-exception[%s]" % label, "%s: %s raised %s" % (where, name, q[1]))
+                elif q[0] == "ok":
+                    add("invalid-not-reported-by-%s[%s]" % ("validate" if name != "field_to_s" else "write-at-level2", label),
+                        "%s: %s returned %r" % (where, name, q[1]))
+            if level == 2:
+                l2 = fresh(level)
                 if assign(l2)[0] == "ok":
                     q = step(gfapy, lambda: str(l2))
                     if q[0] == "ok" and "# INVALID" not in q[1]:
@@ -970,7 +1188,13 @@ def oracle(case):
         return oracle_mono(case)
     if case["kind"] == "script":
         return oracle_script(case)
-    return oracle_assign(case)
+    if case["kind"] == "linelevel":
+        return oracle_linelevel(case)
+    F = oracle_assign(case)
+    if case["mode"] in FIRST and case["record"].startswith("#"):
+        # finding on the unchanged tree (see the module docstring): its own signature
+        F = ["comment-before-version-known/" + x for x in F]
+    return F
 
 
 def shrink(case, failure):
